@@ -12,7 +12,8 @@ SPEC = {
             "B_j = identity, kB_j != identity with 5 candidate proofs; oprf verifiable modes also run a zero blind through DeterministicBlind and replace that evaluated element; dl: (group, G, k, userID, otherInfo, reader), 3..5 "
             "alterations, up to 8 witness-free proofs and 3 proofs that re-solve the verification equation for A or G with the honest challenge "
             "(recovered from the re-drawn nonce; white-box: calcChallenge with a dummy in place of A, G or V); qndleq: (two safe primes from a committed pool of 14, squares g and h, exponent, security "
-            "parameter), 3..5 alterations, one false statement with 26..27 candidate proofs and one statement whose gx and hx are both non-units (0, N, p, q, k·p) with 27 candidate proofs incl. C recomputed for degenerate commitments (black-box through a replica of the challenge calibrated on the honest proof; white-box through doChallenge); simot: (group, choice bit, equal-length message pair). "
+            "parameter), 3..5 alterations, one false statement with 26..27 candidate proofs and one statement whose gx and hx are both non-units (0, N, p, q, k·p) with 27 candidate proofs incl. C recomputed for degenerate commitments (black-box through a replica of the challenge calibrated on the honest proof; white-box through doChallenge); simot: (group, choice bit, equal-length message pair) followed by 1..3 further transfers on the same Sender/Receiver objects. "
+            "In a third of the oprf cases the key is decoded into a PrivateKey object that already held another key; qndleq proofs also carry boundary values of SecParam (top of the uint range, 2^k and 2^k±1). "
             "non-trivial = the evaluated case contains an alteration, a false statement, a degenerate/forged proof, a second blind vector, or an OT "
             "run with swapped ciphertexts (honest-only evaluations are counted as evaluations but not as non-trivial); distinct by FNV-64 of "
             "(sub-check, case description, alteration). Alterations that turn out to be the identity, or that only re-encode the same scalars "
